@@ -211,6 +211,7 @@ fn main() {
         "threads" => cmd_threads(&args),
         "values" => cmd_map(&args, |c| vec![algebra::value_case(c)]),
         "kinds" => cmd_map(&args, |c| vec![algebra::kind_case(c)]),
+        "paths" => cmd_map(&args, |c| vec![algebra::path_case(c)]),
         "nfn" => println!("{}", vrl::stdlib::all().len()),
         _ => {
             eprintln!("usage: vh <core|...> [--opt value]...");
